@@ -287,6 +287,12 @@ let run (t : string array) : string =
   | "raw_data_size" -> Printf.sprintf "ok %d" (int_of_z (raw_data_size (parse_img t.(1)).hdr))
   | "interlace" -> res_str fmt_img (interlace_image (parse_img t.(1)))
   | "deinterlace" -> res_str fmt_img (deinterlace_image (parse_img t.(1)))
+  | "chil" ->
+    (match change_interlacing (parse_img t.(2)) (t.(1) = "1") with
+     | Ok (Some i) -> "ok " ^ fmt_img i
+     | Ok None -> "none"
+     | Err e -> "err " ^ err_kind e
+     | Panic p -> "panic " ^ panic_kind p)
   (* spec_layout <w> <h> <bpp> <il> -> len:pass:npix,... (no filter byte) *)
   | "spec_layout" ->
     let ls = spec_layout (z_of_int (int_of_string t.(1))) (z_of_int (int_of_string t.(2))) (z_of_int (int_of_string t.(3))) (t.(4) = "1") in
